@@ -397,3 +397,36 @@ Proof. vm_compute. repeat split; reflexivity. Qed.
 Example ex_rot_prefix : rotate_left_prefix 8 [1; 2; 3] 8 = [1; 2; 3]
   /\ rotate_left 8 [1; 2; 3] 8 = [3; 1; 2].
 Proof. vm_compute. split; reflexivity. Qed.
+
+(* ---- tie to the source: the glue layer (shifts (and wrapping_next_power_of_two)) REGENERATED from /repo/src on every run
+   (Generated/Glue.v, tools/rs2v_glue.py) is the model's, function by function, for every digit width, digit count,
+   build mode and operand (no well-formedness hypothesis): an edit of the source that changes what one of these
+   one-line functions delegates to breaks this theorem ---- *)
+From Bnum.Model Require Import Digit Core Shift AddSub Mul Div Bits Pow.
+From Bnum.Generated Require Import Glue.
+From Bnum.Proofs Require Import GlueTie.
+Theorem C05_glue_rs_matches_model :
+  (forall w a r, Glue.U_checked_shl w a r = U_checked_shl w a r) /\
+  (forall w a r, Glue.U_checked_shr w a r = U_checked_shr w a r) /\
+  (forall w a r, Glue.U_wrapping_shl w a r = U_wrapping_shl w a r) /\
+  (forall w a r, Glue.U_wrapping_shr w a r = U_wrapping_shr w a r) /\
+  (forall w a, Glue.U_wrapping_next_power_of_two w a = U_wrapping_next_power_of_two w a) /\
+  (forall w a r, Glue.U_strict_shl w a r = U_strict_shl w a r) /\
+  (forall w a r, Glue.U_strict_shr w a r = U_strict_shr w a r) /\
+  (forall w a r, Glue.I_strict_shl w a r = I_strict_shl w a r) /\
+  (forall w a r, Glue.I_strict_shr w a r = I_strict_shr w a r) /\
+  (forall dbg w a r, Glue.U_shl dbg w a r = U_shl dbg w a r) /\
+  (forall dbg w a r, Glue.U_shr dbg w a r = U_shr dbg w a r) /\
+  (forall dbg w a r, Glue.I_shl dbg w a r = I_shl dbg w a r) /\
+  (forall dbg w a r, Glue.I_shr dbg w a r = I_shr dbg w a r) /\
+  (forall w a r, Glue.I_checked_shl w a r = I_checked_shl w a r) /\
+  (forall w a r, Glue.I_checked_shr w a r = I_checked_shr w a r) /\
+  (forall w a r, Glue.I_wrapping_shl w a r = I_wrapping_shl w a r) /\
+  (forall w a r, Glue.I_wrapping_shr w a r = I_wrapping_shr w a r) /\
+  (forall w a r, Glue.U_overflowing_shl w a r = U_overflowing_shl w a r) /\
+  (forall w a r, Glue.U_overflowing_shr w a r = U_overflowing_shr w a r) /\
+  (forall w a r, Glue.I_overflowing_shl w a r = I_overflowing_shl w a r) /\
+  (forall w a r, Glue.I_overflowing_shr w a r = I_overflowing_shr w a r) /\
+  (forall w a r, Glue.U_unchecked_shr_internal w a r = shr_pad_internal w false a r).
+Proof. exact glue_shift_matches_model. Qed.
+Print Assumptions C05_glue_rs_matches_model.
